@@ -6,8 +6,9 @@ SOLV = CORE + "base_solver.py"
 VARIANTS = [
     V("gdg-create-graph-dropped", BS, "                grad_outputs=g * v2,\n                retain_graph=True,\n                create_graph=requires_grad,\n",
       "                grad_outputs=g * v2,\n                retain_graph=True,\n", rule="R08.2"),
-    V("gdg-create-graph-false", BS, "                grad_outputs=g * v2.unsqueeze(-2),\n                retain_graph=True,\n                create_graph=requires_grad,\n",
-      "                grad_outputs=g * v2.unsqueeze(-2),\n                retain_graph=True,\n                create_graph=False,\n", rule="R08.2"),
+    V("gdg-create-graph-false", BS, "                    grad_inputs=gv[..., col_idx],\n                    retain_graph=True,\n                    create_graph=requires_grad,\n",
+      "                    grad_inputs=gv[..., col_idx],\n                    retain_graph=True,\n                    create_graph=False,\n", rule="R08.2"),
+    V("gdg-default-detached-weight", BS, "            gv = g * v2.unsqueeze(-2)\n", "            gv = g.detach() * v2.unsqueeze(-2)\n", rule="R08.1"),
     V("grad-mode-captured-late", BS, "    def g_prod_and_gdg_prod_diagonal(self, t, y, v1, v2):\n        requires_grad = torch.is_grad_enabled()\n        with torch.enable_grad():\n",
       "    def g_prod_and_gdg_prod_diagonal(self, t, y, v1, v2):\n        with torch.enable_grad():\n            requires_grad = torch.is_grad_enabled() and y.requires_grad\n", rule="R08.2"),
     V("jvp-v1-create-graph", BS, "                    grad_inputs=ga[..., col_idx],\n                    retain_graph=True,\n                    create_graph=requires_grad,\n",
